@@ -9,44 +9,10 @@ vars == <<seqs, alive, ever, acct, l, subj, kf>>
 
 TraceInit == SeqInit(TRUE) /\ l = 1 /\ subj = [subject |-> "none"] /\ kf = {}
 
-(* the state change an event claims *)
-Trans(e) ==
-    LET D == e.dropped
-        B == Elems(e.born) IN
-    \/ e.op = "push"   /\ e.ok  /\ Push(e.o, e.x, D, B)
-    \/ e.op = "push"   /\ ~e.ok /\ PushRefused(e.o, e.x, D, B)
-    \/ e.op = "pop"    /\ Pop(e.o, e.r, D, B)
-    \/ e.op = "insert" /\ e.ok  /\ Insert(e.o, e.i, e.x, D, B)
-    \/ e.op = "insert" /\ ~e.ok /\ InsertRefused(e.o, e.i, e.x, D, B)
-    \/ e.op = "remove" /\ e.ok  /\ Len(e.r) = 1 /\ Remove(e.o, e.i, e.r[1], D, B)
-    \/ e.op = "remove" /\ ~e.ok /\ RemoveRefused(e.o, e.i, D, B)
-    \/ e.op = "set"    /\ e.ok  /\ Set(e.o, e.i, e.x, D, B)
-    \/ e.op = "set"    /\ ~e.ok /\ SetRefused(e.o, e.i, e.x, D, B)
-    \/ e.op = "resize" /\ e.ok  /\ Resize(e.o, e.n, e.x, e.post.c, D, B)
-    \/ e.op = "resize" /\ ~e.ok /\ ResizeRefused(e.o, e.n, e.x, D, B)
-    \/ e.op = "extend_move"  /\ e.ok  /\ ExtendMove(e.o, e.xs, D, B)
-    \/ e.op = "extend_move"  /\ ~e.ok /\ ExtendRefused(e.o, e.xs, TRUE, D, B)
-    \/ e.op = "extend_clone" /\ e.ok  /\ ExtendClone(e.o, e.xs, e.post.c, D, B)
-    \/ e.op = "extend_clone" /\ ~e.ok /\ ExtendRefused(e.o, e.xs, FALSE, D, B)
-    \/ e.op = "fill"     /\ e.ok  /\ Fill(e.o, e.a, e.b, e.x)
-    \/ e.op = "fill"     /\ ~e.ok /\ Maintenance(e.o, D, B)
-    \/ e.op = "clear"    /\ e.ok  /\ Clear(e.o, D, B)
-    \/ e.op = "clear"    /\ ~e.ok /\ Maintenance(e.o, D, B)
-    \/ e.op = "truncate" /\ e.ok  /\ Truncate(e.o, e.n, D, B)
-    \/ e.op = "truncate" /\ ~e.ok /\ Maintenance(e.o, D, B)
-    \/ e.op = "pop_tail" /\ e.ok  /\ PopTail(e.o, e.n, e.r, D, B)
-    \/ e.op = "pop_tail" /\ ~e.ok /\ Maintenance(e.o, D, B)
-    \/ e.op = "maintenance" /\ Maintenance(e.o, D, B)
-    \/ e.op = "clone" /\ e.ok /\ Clone(e.o, e.o2, e.post.c, D, B)
-    \/ e.op = "drop"  /\ DropContainer(e.o, D, B)
+(* first event of a run: the line before is the reset *)
+First == l > 1 /\ Rec[l - 1].op = "reset"
 
-(* what the object shows after the call must be the new abstract state *)
-PostOK(e) ==
-    \/ e.op = "drop"
-    \/ e.op = "clone" /\ ObsSeq(seqs'[e.o2], e.post) /\ ObsSeq(seqs'[e.o], e.src)
-    \/ e.op \notin {"drop", "clone"} /\ ObsSeq(seqs'[e.o], e.post)
-
-Step(e) == Trans(e) /\ PostOK(e)
+Step(e) == TransV(e, subj, First) /\ PostV(e)
 
 TraceNext ==
     /\ l <= Len(Rec)
